@@ -44,6 +44,15 @@ Theorem c11_reject_nonpositive : forall n d c nr dr cutoff,
 Proof. intros. repeat split; [apply nonpositive_nr_rejected|apply nonpositive_dr_rejected|apply nonpositive_cutoff_rejected]. Qed.
 Print Assumptions c11_reject_nonpositive.
 
+(* nan and the infinities are refused wherever they are given; a step or cutoff that passes the check is finite and positive
+   (the check is `not (0 < x < inf)` since the repair d92f13e; before it nan / inf were accepted: known finding C16-nonfinite) *)
+Theorem c11_reject_nonfinite : forall nr dr cutoff s,
+  init_cutoff nr (Some (B754_nan : b64)) cutoff = CfgErr /\ init_cutoff nr (Some (B754_infinity s : b64)) cutoff = CfgErr /\
+  init_cutoff nr dr (Some (B754_nan : b64)) = CfgErr /\ init_cutoff nr dr (Some (B754_infinity s : b64)) = CfgErr.
+Proof. exact nonfinite_rejected. Qed.
+Theorem c11_accepted_finite_positive : forall x : b64, le0 x = false -> is_finite x = true /\ (0 < B2R x)%R.
+Proof. exact le0_false_finite_pos. Qed.
+
 (* omitted values are left to the documented defaults (10.0 / 1001, 100.0 / 1001), asserted on extract_cutoffs *)
 Theorem c11_defaults : init_cutoff None None None = Ok (None, None) /\ default_cutoff = 10%Z /\ default_nr = 1001%Z /\ default_cutoff_rho = 100%Z /\ default_nrho = 1001%Z.
 Proof. repeat split. Qed.
